@@ -373,7 +373,7 @@ pub fn gen_scenario(run_seed: u64, variant: &str, tier: Tier) -> E2Scenario {
         for _ in 0..n {
             let p = (*rf.pick(&paths)).clone();
             let len = tree[&p].len().max(1);
-            let kind = *rf.pick(&["truncate", "truncate", "truncate", "bitflip", "bitflip", "splice", "empty", "badutf8", "unispace", "unispace", "token_subst", "token_subst", "vanish", "unreadable"]);
+            let kind = *rf.pick(&["truncate", "truncate", "truncate", "bitflip", "bitflip", "splice", "empty", "badutf8", "unispace", "unispace", "token_subst", "token_subst", "paste_spread", "vanish", "unreadable"]);
             corruptions.push(Corruption { path: p, kind: kind.into(), a: rf.below(len), b: rf.below(8) });
         }
         // torn config writes that end shortly after a key: the value is a prefix of what it was
@@ -1737,6 +1737,33 @@ pub fn corrupt(tree: &mut Tree, c: &Corruption, all: &Tree) -> bool {
             out.push_str(&donor.text);
             out.push_str(&text[victim.byte + victim.text.len()..]);
             tree.insert(c.path.clone(), out.into_bytes());
+        }
+        "paste_spread" => {
+            // a spread pasted into the wrong selection set: `...X` right below the header of a
+            // fragment - half of the time of that fragment itself (a fragment cycle)
+            let Ok(text) = String::from_utf8(orig.clone()) else { return false };
+            let lines: Vec<&str> = text.split('\n').collect();
+            let heads: Vec<(usize, String)> = lines
+                .iter()
+                .enumerate()
+                .filter_map(|(i, l)| {
+                    let t = l.trim_start();
+                    let rest = t.strip_prefix("fragment ")?;
+                    if !t.trim_end().ends_with('{') {
+                        return None;
+                    }
+                    let name: String = rest.chars().take_while(|ch| ch.is_ascii_alphanumeric() || *ch == '_').collect();
+                    (!name.is_empty()).then_some((i, name))
+                })
+                .collect();
+            if heads.is_empty() {
+                return false;
+            }
+            let (li, own) = &heads[c.a % heads.len()];
+            let name = if c.b % 2 == 0 { own.clone() } else { heads[(c.a / heads.len() + c.b) % heads.len()].1.clone() };
+            let mut out: Vec<String> = lines.iter().map(|l| l.to_string()).collect();
+            out.insert(li + 1, format!("  ...{name}"));
+            tree.insert(c.path.clone(), out.join("\n").into_bytes());
         }
         "unispace" => {
             // what an IME or a copy from a web page does: the indentation of one line becomes
